@@ -73,13 +73,16 @@ def getNextColor (pal : List Colour) (nKeys : Nat) (other : Option Colour) : Exc
   | .error e => .error e
   | .ok c => if some c ≠ other then .ok c else palAt pal (nKeys + Generated.Blame.nextColorOffsets.2)
 
+/-- `previous_key_color` -/
+def prevColour (m : KeyMap) : Option Key → Option Colour
+  | some p => lookup m p
+  | none => none
+
 /-- `get_color` -/
 def getColor (pal : List Colour) (m : KeyMap) (key : Key) (prev : Option Key) (isRepeat : Bool) :
     Except Panic Colour :=
   let kc := lookup m key
-  let pc := match prev with
-    | some p => lookup m p
-    | none => none
+  let pc := prevColour m prev
   match armFor Generated.Blame.getColorArms 0 kc.isSome pc.isSome isRepeat with
   | none => .error .noArm
   | some (i, act) =>
@@ -389,6 +392,14 @@ def formatMeta (arith : Nat) (cw : Char → Nat) (items : List Item) (ts author 
     Except Panic Str :=
   formatMetaGo arith cw ts author commit items [] []
 
+/-- The default `--blame-format` (`Generated.Blame.defaultBlameFormat`) as
+`parse_line_number_format` splits it (compared with the implementation's result on every run;
+the suffix of an item is the whole rest of the format string, only the last one is printed). -/
+def defaultItems : List Item :=
+  [⟨[], some .timestamp, some .left, some 15, none, " {author:<15.14} {commit:<8}".toList⟩,
+   ⟨[' '], some .author, some .left, some 15, some 14, " {commit:<8}".toList⟩,
+   ⟨[' '], some .commit, some .left, some 8, none, []⟩]
+
 /-! ## Line number (`format_blame_line_number`) -/
 
 inductive SepKind where
@@ -413,13 +424,16 @@ def padNum (n : Nat) (width : Nat) (al : Align) : Str :=
   | .center => if p % 2 = 1 then spaces (p / 2 + 1) ++ ds ++ spaces (p / 2)
                else spaces (p / 2) ++ ds ++ spaces (p / 2)
 
+/-- Is the number replaced by blanks? (`is_repeat && line_number % n != 0` short-circuits.) -/
+def numberBlank (kind : SepKind) (n : Nat) (isRepeat : Bool) : Except Panic Bool :=
+  match kind with
+  | .on => .ok false
+  | .perBlock => .ok isRepeat
+  | .every k => if k = 0 then (if isRepeat then .error .modZero else .ok false)
+                else .ok (isRepeat && n % k != 0)
+
 def fmtLineNumber (sep : Sep) (n : Nat) (isRepeat : Bool) : Except Panic (Str × Str × Str) :=
-  let empty : Except Panic Bool := match sep.kind with
-    | .on => .ok false
-    | .perBlock => .ok isRepeat
-    | .every k => if k = 0 then (if isRepeat then .error .modZero else .ok false)
-                  else .ok (isRepeat && n % k != 0)
-  match empty with
+  match numberBlank sep.kind n isRepeat with
   | .error e => .error e
   | .ok empty =>
     match sep.width with
